@@ -141,6 +141,7 @@ theorem openLogs_pb (cid : Nat) (logs : List Mod) (s : State) :
     PB s (openLogs cid logs s).1 [] (openLogs cid logs s).2.1 := by
   unfold openLogs
   refine PB.trans (PB.of_mpool ?_) (openLogsFrom_pb cid logs 0 _ [] [0])
+  show (openWriter 0 (ev s [.cbReg cid])).mpool = s.mpool
   rw [openWriter_mpool]; rfl
 
 /-! cancel gives back exactly the keys of the list -/
